@@ -225,10 +225,10 @@ Lemma remove_core_frame fuel : forall s name uw, rm_frame s (remove_core fuel s 
 Proof.
   induction fuel as [|fuel IH]; intros s name uw; [apply rmf_refl|]. cbn [remove_core].
   destruct (tb_byPath (T s) (clean name)) as [[fd w]|]; [|apply rmf_refl].
-  destruct (sys_evdelete (K s) fd) as [k1|] eqn:Ee; [|apply rmf_refl].
+  destruct (evdelete_err (K s) fd) as [k1 res] eqn:Ee.
   destruct (tb_remove (T s) fd (clean name)) as [t1 isd].
   assert (F1 : rm_frame s (set_T (fun _ => t1) (set_K (fun _ => sys_close k1 fd) s))).
-  { unfold sys_evdelete in Ee. destruct (k_regs (K s) !! fd); [|discriminate]. injection Ee as <-. constructor; simpl; done. }
+  { unfold evdelete_err, sys_evdelete in Ee. destruct (k_regs (K s) !! fd); injection Ee as <- _; constructor; simpl; done. }
   destruct (uw && isd); [|exact F1]. cbn [fst].
   revert F1. generalize (set_T (fun _ => t1) (set_K (fun _ => sys_close k1 fd) s)).
   induction (tb_watchesInDir t1 (clean name)) as [|ch r IHr]; intros s0 F0; [exact F0|].
@@ -239,7 +239,7 @@ Lemma remove_core_seen1 fuel s name : t_seen (T s) ∖ {[clean name]} ⊆ t_seen
 Proof.
   destruct fuel as [|fuel]; [simpl; set_solver|]. cbn [remove_core].
   destruct (tb_byPath (T s) (clean name)) as [[fd w]|]; [|simpl; set_solver].
-  destruct (sys_evdelete (K s) fd) as [k1|]; [|simpl; set_solver].
+  destruct (evdelete_err (K s) fd) as [k1 res].
   destruct (tb_remove (T s) fd (clean name)) as [t1 isd] eqn:Et. cbn [andb fst].
   unfold tb_remove in Et. injection Et as <- _. simpl. set_solver.
 Qed.
@@ -298,6 +298,8 @@ Proof.
   - intros fd0 w. destruct (decide (fd = fd0)) as [->|Hd].
     + rewrite lookup_insert. intros [= <-]. simpl. assumption.
     + rewrite lookup_insert_ne by done. apply Hlc.
+  - intros fd0 w0. destruct (decide (fd = fd0)) as [->|Hd]; [rewrite lookup_delete; discriminate|].
+    rewrite lookup_delete_ne by done. apply Hlc.
   - intros fd0 w0. destruct (decide (fd = fd0)) as [->|Hd]; [rewrite lookup_delete; discriminate|].
     rewrite lookup_delete_ne by done. apply Hlc.
 Qed.
